@@ -71,6 +71,12 @@ theorem slept_kill (k : Kernel) (pid sig : Nat) : (k.kill pid sig).1.slept = k.s
           · split <;> rfl
       · rfl
 
+theorem slept_killD (k : Kernel) (pid sig : Nat) : (k.killD pid sig).1.slept = k.slept := by
+  simp only [Kernel.killD]
+  split
+  · exact slept_tick k
+  · exact slept_kill k pid sig
+
 theorem slept_waitpid (k : Kernel) (pid : Option Nat) : (k.waitpid pid).1.slept = k.slept := by
   simp only [Kernel.waitpid]
   rw [← slept_tick k]
@@ -619,7 +625,7 @@ theorem noSleep_emitEv (n : Nat) (w t : String) (p : Option Nat) (x : String) : 
 
 theorem noSleepLeafNS (n : Nat) : LeafNS (NoSleep n) where
   emit := noSleep_emit n
-  kill := fun pid sig => noSleep_same fun s => ⟨Kernel.slept_kill s.k pid sig, rfl⟩
+  kill := fun pid sig => noSleep_same fun s => ⟨Kernel.slept_killD s.k pid sig, rfl⟩
   waitpid := fun pid => noSleep_same fun s => ⟨Kernel.slept_waitpid s.k pid, rfl⟩
   stateOf := fun pid => noSleep_same fun s => ⟨Kernel.slept_stateOf s.k pid, rfl⟩
   children := fun pid r => noSleep_same fun s => ⟨Kernel.slept_children s.k pid r, rfl⟩
@@ -836,35 +842,38 @@ theorem quietFramesLeafN (l : List Sleeper) (f : List Frame) (n : Nat) : LeafN (
   evKill := fun _ _ _ => quietFrames_same fun s => by simp only [emitEv, modS]; split <;> exact ⟨rfl, rfl, rfl⟩
 
 /-- finishing a kill (with or without SIGKILL escalation) parks nothing: no sleeper, no frame — it
-    hands `True` to the waiter -/
+    hands `True` to the waiter, or the `AccessDenied` of a SIGKILL the daemon was not permitted to send -/
 theorem killFinish_no_sleeper (rec : Rec) (u p : Nat) (esc : Bool) (wt : Waiter) (s : State) :
-    ∃ s1, killFinish rec u p esc wt s = deliver rec wt (.bool true) s1 ∧
+    ∃ v s1, killFinish rec u p esc wt s = deliver rec wt v s1 ∧ (v = .bool true ∨ v = accessDenied) ∧
       s1.sleepers = s.sleepers ∧ s1.frames = s.frames := by
   have L := quietFramesLeafN s.sleepers s.frames s.nextId
   have h0 : QuietFrames s.sleepers s.frames s.nextId s := ⟨rfl, rfl, rfl⟩
   cases esc with
   | false =>
-    refine ⟨_, C03_finish_plain rec u p wt s, ?_⟩
+    refine ⟨_, _, C03_finish_plain rec u p wt s, Or.inl rfl, ?_⟩
     have h1 : QuietFrames s.sleepers s.frames s.nextId (setObjStopping p false s).2 := L.setObjStopping p false s h0
     have h2 := objStop_narrow L.toLeafN0 p _ h1
     exact ⟨h2.1, h2.2.1⟩
   | true =>
-    refine ⟨_, C03_escalation_is_sigkill rec u p wt s, ?_⟩
     have h1 := sendSignalProcess_narrow L u p 9 true s h0
-    have h2 := L.setObjStopping p false _ h1
-    have h3 := objStop_narrow L.toLeafN0 p _ h2
-    exact ⟨h3.1, h3.2.1⟩
+    cases hok : (sendSignalProcess u p 9 true s).1
+    · exact ⟨_, _, C03_escalation_denied rec u p wt s hok, Or.inr rfl, h1.1, h1.2.1⟩
+    · refine ⟨_, _, C03_escalation_is_sigkill rec u p wt s hok, Or.inl rfl, ?_⟩
+      have h2 := L.setObjStopping p false _ h1
+      have h3 := objStop_narrow L.toLeafN0 p _ h2
+      exact ⟨h3.1, h3.2.1⟩
 
 /-- **a kill is bounded**: each activation of the polling loop either (only while `i < polls` and the
     worker is still alive) parks exactly one 100 ms timer whose firing re-enters the loop with `i + 1`
     (`C05_kill_timer_reenters_loop`), or finishes — in particular at `i = polls` — delivering its result
-    without any further timer.  So a kill suspends at most `polls = pollsOf graceful_timeout` times. -/
+    (`True`, or `AccessDenied` when the daemon was not permitted to send the SIGKILL) without any further timer.
+    So a kill suspends at most `polls = pollsOf graceful_timeout` times. -/
 theorem C05_kill_bounded (rec : Rec) (u p sig i polls : Nat) (wt : Waiter) (s : State) :
     (i < polls ∧ (isAlive p s).1 = true ∧
       killLoop rec u p sig i polls wt s = awaitSleep 100 (.killWait u p sig (i + 1) polls) wt (isAlive p s).2 ∧
       ∃ fid sid, (killLoop rec u p sig i polls wt s).2.sleepers =
         s.sleepers ++ [{ sid := sid, deadline := (isAlive p s).2.k.now + 100, waiter := .frame fid 0 }]) ∨
-    (∃ s1, killLoop rec u p sig i polls wt s = deliver rec wt (.bool true) s1 ∧
+    (∃ v s1, killLoop rec u p sig i polls wt s = deliver rec wt v s1 ∧ (v = .bool true ∨ v = accessDenied) ∧
       s1.sleepers = s.sleepers ∧ s1.frames = s.frames) := by
   have hal : (isAlive p s).2.sleepers = s.sleepers ∧ (isAlive p s).2.frames = s.frames := by
     have := isAlive_narrow (quietFramesLeafN s.sleepers s.frames s.nextId).toLeafN0 p s ⟨rfl, rfl, rfl⟩
@@ -873,8 +882,8 @@ theorem C05_kill_bounded (rec : Rec) (u p sig i polls : Nat) (wt : Waiter) (s : 
   · cases ha : (isAlive p s).1
     · right
       rw [C03_no_sigkill_to_exited rec u p sig i polls wt s hi ha]
-      obtain ⟨s1, h1, h2, h3⟩ := killFinish_no_sleeper rec u p false wt (isAlive p s).2
-      exact ⟨s1, h1, h2.trans hal.1, h3.trans hal.2⟩
+      obtain ⟨v, s1, h1, hv, h2, h3⟩ := killFinish_no_sleeper rec u p false wt (isAlive p s).2
+      exact ⟨v, s1, h1, hv, h2.trans hal.1, h3.trans hal.2⟩
     · left
       have he := C03_waits_while_alive rec u p sig i polls wt s hi ha
       refine ⟨hi, rfl, he, ?_⟩
@@ -886,7 +895,7 @@ theorem C05_kill_bounded (rec : Rec) (u p sig i polls : Nat) (wt : Waiter) (s : 
 
 /-- at `i = polls` the loop does not suspend any more -/
 theorem C05_kill_ends_at_polls (rec : Rec) (u p sig i polls : Nat) (wt : Waiter) (s : State) (hi : polls ≤ i) :
-    ∃ s1, killLoop rec u p sig i polls wt s = deliver rec wt (.bool true) s1 ∧
+    ∃ v s1, killLoop rec u p sig i polls wt s = deliver rec wt v s1 ∧ (v = .bool true ∨ v = accessDenied) ∧
       s1.sleepers = s.sleepers ∧ s1.frames = s.frames := by
   rcases C05_kill_bounded rec u p sig i polls wt s with h | h
   · exact absurd h.1 (by omega)
